@@ -17,6 +17,8 @@ func checkC13(c *Ctx) {
 	c.Explanation = `R13.1 lookup key: in both loops of TemplateGenerator.methodData (parameters and results) the two key variables are declared inside the loop body (fresh for every parameter, empty for types that are not named), are assigned only in the *types.Named and *types.Alias arms of the switch on the parameter's own type, from t.Obj().Pkg().Path() (when Pkg() is non-nil) and t.Obj().Name(), and are handed to GetReplacement in the order (package path, type name); the result goes to AddVar for that same parameter;
 R13.2 Config.GetReplacement indexes ReplaceType first with its first parameter and the inner map with its second;
 R13.3 substitution in MethodScope.AddVar: with a replacement the variable's type is the type of the object found by Scope().Lookup(replacement.TypeName) in a package loaded for replacement.PkgPath (no other source, no cache keyed differently), its imports receive that package only, and a miss is an error; without one the type is the variable's own and imports come from populateImports;
+R13.3b Var.Nillable classifies v.Type(), the effective (replaced) type, so the nil handling the testify template emits matches the substituted type;
+R13.5 the configuration hierarchy resolves most-specific-first and is initialised twice before use (C08 rules), so replace-type written on a recursive package reaches the listed interfaces of its sub-packages;
 R13.4 the setting is effective at every level: ReplaceType is inheritable in mergeConfigs (the C08 R08.1 field rule applied to this field).`
 	c.NotDecided = "that the substituted signature compiles; aliases of aliases; which packages go list resolves."
 	c.Assumptions = []string{"go/types Named/Alias API"}
@@ -70,6 +72,10 @@ R13.4 the setting is effective at every level: ReplaceType is inheritable in mer
 	}
 	// ---- R13.3
 	ruleAddVar(c, r)
+	// what the templates ask of a (possibly replaced) variable is answered from its effective type
+	ruleNillable(c, r, "R13.3")
+	// the levels at which replace-type can be written all reach the interface's config
+	configResolutionGuard(c, "R13.5")
 	// ---- R13.4 via the C08 machinery
 	sub := newCtx("C13", c.Tier)
 	sub.known = nil
